@@ -2,7 +2,7 @@
 (* Driver of the taint engine (C09).  Line: `new|old <cfg sexp> <branches sexp>`
    (`old` = the side-effect analysis before the repair of C09-single-name-constraint).
    Prints `(result (universe ..) (taint ..) (closure ..) (cons ..) (ccl ..) (constrained ..)
-   (defs ..) (decls ..) (sinks ..) (findings ..))` in the format of harness/src/bin/taint.rs,
+   (defs ..) (decls ..) (sinks ..) (findings ..) (wf 0|1))` in the format of harness/src/bin/taint.rs,
    or (outoffuel) / (panic) / (err). *)
 open Datatypes
 open Base
@@ -74,7 +74,9 @@ let line l =
       L (A "defs" :: Stdlib.List.map (w_duse g.Ir.c_params) r.r_taint.t_defs);
       L (A "decls" :: w_vars (canon (Stdlib.List.map (fun d -> d.d_name) r.r_taint.t_decls)));
       L (A "sinks" :: w_vars (canon r.r_sinks));
-      L (A "findings" :: Stdlib.List.map w_finding r.r_findings)])
+      L (A "findings" :: Stdlib.List.map w_finding r.r_findings);
+      (* hypotheses of C09_noninterference, evaluated on this cfg (model side only) *)
+      L [A "wf"; A (if ssa_wf_b g then "1" else "0")]])
   | _ -> "(badline)"
 
 let () = each_line line
